@@ -494,6 +494,16 @@ def rule_r6(chk, p, t):
         bad = []
         n_sites = 0
 
+        def _from_events(name):
+            """the name collects what the per-event lists reported: assigned from an expression over t_events, or inside
+            a loop over them"""
+            for a in walk_no_nested(m.node):
+                if isinstance(a, ast.Assign) and any(isinstance(tg, ast.Name) and tg.id == name for tg in a.targets) and "t_events" in unparse(a.value):
+                    return True
+                if isinstance(a, ast.For) and "t_events" in unparse(a.iter) and any(isinstance(x, ast.Name) and x.id == name and isinstance(x.ctx, ast.Store) for b_ in a.body for x in ast.walk(b_)):
+                    return True
+            return False
+
         def guarded(node_ast):
             """dominated by a condition on the number of returned times, or by `no event fired`"""
             # inside the guarded arm of a conditional expression / a short-circuit `and`
@@ -524,17 +534,43 @@ def rule_r6(chk, p, t):
                 # integration reaches it, which ends the loop)
                 if lab is True and isinstance(c.ast, ast.Compare) and len(c.ast.ops) == 1 and isinstance(c.ast.ops[0], ast.Eq) and unparse(c.ast.left) == f"len({teval})" and unparse(c.ast.comparators[0]) == "0":
                     return True
-                # `if not fired:` - no event reported: the integration ran to the last requested time
-                if isinstance(c.ast, ast.Name) and lab is False and any(
-                    isinstance(a, ast.Assign) and len(a.targets) == 1 and isinstance(a.targets[0], ast.Name) and a.targets[0].id == c.ast.id and ("t_events" in unparse(a.value))
-                    for a in walk_no_nested(m.node)
-                ):
+                # `if not fired:` / `if fired is None:` - no event reported: the integration ran to the last requested time
+                nm_, neg = None, None
+                if isinstance(c.ast, ast.Name):
+                    nm_, neg = c.ast.id, (lab is False)
+                elif isinstance(c.ast, ast.Compare) and len(c.ast.ops) == 1 and isinstance(c.ast.left, ast.Name) and isinstance(c.ast.comparators[0], ast.Constant) and c.ast.comparators[0].value is None:
+                    nm_ = c.ast.left.id
+                    neg = (isinstance(c.ast.ops[0], ast.IsNot) and lab is False) or (isinstance(c.ast.ops[0], ast.Is) and lab is True)
+                if nm_ is not None and neg and _from_events(nm_):
                     return True
             return False
 
+        # a name bound to the raw y stops being raw once it is re-bound to a converted array: uses reached only through
+        # such a re-binding are uses of an array
+        raw_defs, conv_defs = {}, {}
+        for nd in cfg.nodes:
+            a = nd.ast
+            if nd.kind == "stmt" and isinstance(a, ast.Assign) and len(a.targets) == 1 and isinstance(a.targets[0], ast.Name):
+                nm_ = a.targets[0].id
+                if unparse(a.value) == f"{sol}.y":
+                    raw_defs.setdefault(nm_, []).append(nd.id)
+                elif any(isinstance(c_, ast.Call) and call_name(c_) in SAFE for c_ in ast.walk(a.value)) or any(isinstance(c_, ast.Call) and call_name(c_) in ("zeros", "empty", "full", "zeros_like") for c_ in ast.walk(a.value)):
+                    conv_defs.setdefault(nm_, []).append(nd.id)
+
+        def still_raw(name_node):
+            nm_ = unparse(name_node)
+            if nm_ not in raw_defs:
+                return True  # `solution.y` itself
+            nd = cfg.node_of(name_node)
+            if nd is None:
+                return True
+            if nd.id in conv_defs.get(nm_, []):
+                return True  # the argument of the conversion itself (judged at that site)
+            return any(nd.id in cfg.reachable(d, blocked_nodes=conv_defs.get(nm_, [])) for d in raw_defs[nm_])
+
         for n in walk_no_nested(m.node):
             # (a) array use of the raw y
-            if isinstance(n, (ast.Name, ast.Attribute)) and isinstance(getattr(n, "ctx", None), ast.Load) and unparse(n) in raw_y:
+            if isinstance(n, (ast.Name, ast.Attribute)) and isinstance(getattr(n, "ctx", None), ast.Load) and unparse(n) in raw_y and still_raw(n):
                 par = pm.get(n)
                 if isinstance(par, ast.Attribute) and par.value is n and par.attr in ("reshape", "copy", "T", "shape", "ravel", "flatten"):
                     n_sites += 1
